@@ -109,88 +109,12 @@ func (w *World) Exec(o *tr.Op) string {
 		return w.addrDeposit(o)
 
 	// ------------------------------------------------------------------ relayer / bridge messages
-	case "tx.hashes":
-		return w.RunTx(w.ctxAt(o), func(ctx sdk.Context) error {
-			_, err := w.BtcMsg.NewBlockHashes(ctx, &bitcointypes.MsgNewBlockHashes{Proposer: o.Str("proposer"), Vote: voteOf(o),
-				StartBlockNumber: o.U64("start"), BlockHash: o.BytesList("hashes")})
-			return err
-		})
-	case "tx.pubkey":
-		return w.RunTx(w.ctxAt(o), func(ctx sdk.Context) error {
-			_, err := w.BtcMsg.NewPubkey(ctx, &bitcointypes.MsgNewPubkey{Proposer: o.Str("proposer"), Vote: voteOf(o),
-				Pubkey: PubKeyOf(o.Str("kind"), o.Bytes("key"))})
-			return err
-		})
-	case "tx.deposits":
-		return w.RunTx(w.ctxAt(o), func(ctx sdk.Context) error {
-			m := &bitcointypes.MsgNewDeposits{Proposer: o.Str("proposer")}
-			for _, h := range o.List("headers") {
-				f := fields(h)
-				m.BlockHeaders = append(m.BlockHeaders, &bitcointypes.BlockHeader{Height: u64(f[0]), Raw: tr.UnHex(f[1])})
-			}
-			for _, d := range o.List("deps") {
-				f := fields(d)
-				m.Deposits = append(m.Deposits, &bitcointypes.Deposit{Version: uint32(u64(f[0])), BlockNumber: u64(f[1]), TxIndex: uint32(u64(f[2])),
-					NoWitnessTx: tr.UnHex(f[3]), OutputIndex: uint32(u64(f[4])), IntermediateProof: tr.UnHex(f[5]), EvmAddress: tr.UnHex(f[6]),
-					RelayerPubkey: PubKeyOf(f[7], tr.UnHex(f[8]))})
-			}
-			_, err := w.BtcMsg.NewDeposits(ctx, m)
-			return err
-		})
-	case "tx.process":
-		return w.RunTx(w.ctxAt(o), func(ctx sdk.Context) error {
-			_, err := w.BtcMsg.ProcessWithdrawal(ctx, &bitcointypes.MsgProcessWithdrawal{Proposer: o.Str("proposer"), Vote: voteOf(o),
-				Id: o.U64List("ids"), NoWitnessTx: o.Bytes("tx"), TxFee: o.U64("fee")})
-			return err
-		})
-	case "tx.replace":
-		return w.RunTx(w.ctxAt(o), func(ctx sdk.Context) error {
-			_, err := w.BtcMsg.ReplaceWithdrawal(ctx, &bitcointypes.MsgReplaceWithdrawal{Proposer: o.Str("proposer"), Vote: voteOf(o),
-				Pid: o.U64("pid"), NewNoWitnessTx: o.Bytes("tx"), NewTxFee: o.U64("fee")})
-			return err
-		})
-	case "tx.finalize":
-		return w.RunTx(w.ctxAt(o), func(ctx sdk.Context) error {
-			_, err := w.BtcMsg.FinalizeWithdrawal(ctx, &bitcointypes.MsgFinalizeWithdrawal{Proposer: o.Str("proposer"), Pid: o.U64("pid"),
-				Txid: o.Bytes("txid"), BlockNumber: o.U64("block"), TxIndex: uint32(o.U64("txindex")), IntermediateProof: o.Bytes("proof"),
-				BlockHeader: o.Bytes("header")})
-			return err
-		})
-	case "tx.approve":
-		return w.RunTx(w.ctxAt(o), func(ctx sdk.Context) error {
-			_, err := w.BtcMsg.ApproveCancellation(ctx, &bitcointypes.MsgApproveCancellation{Proposer: o.Str("proposer"), Id: o.U64List("ids")})
-			return err
-		})
-	case "tx.consolidate":
-		return w.RunTx(w.ctxAt(o), func(ctx sdk.Context) error {
-			_, err := w.BtcMsg.NewConsolidation(ctx, &bitcointypes.MsgNewConsolidation{Proposer: o.Str("proposer"), Vote: voteOf(o), NoWitnessTx: o.Bytes("tx")})
-			return err
-		})
-	case "tx.newvoter":
-		return w.RunTx(w.ctxAt(o), func(ctx sdk.Context) error {
-			_, err := w.RelMsg.NewVoter(ctx, &relayertypes.MsgNewVoterRequest{Proposer: o.Str("proposer"), VoterBlsKey: o.Bytes("blskey"),
-				VoterBlsKeyProof: o.Bytes("blsproof"), VoterTxKey: o.Bytes("txkey"), VoterTxKeyProof: o.Bytes("txproof")})
-			return err
-		})
-	case "tx.accept":
-		return w.RunTx(w.ctxAt(o), func(ctx sdk.Context) error {
-			_, err := w.RelMsg.AcceptProposer(ctx, &relayertypes.MsgAcceptProposerRequest{Proposer: o.Str("proposer"), Epoch: o.U64("epoch")})
-			return err
-		})
+	case "tx.hashes", "tx.pubkey", "tx.deposits", "tx.process", "tx.replace", "tx.finalize", "tx.approve", "tx.consolidate", "tx.newvoter", "tx.accept":
+		return w.RunTx(w.ctxAt(o), func(ctx sdk.Context) error { return w.Deliver(ctx, MsgOf(o)) })
 
 	// ------------------------------------------------------------- execution-layer request lists
 	case "req.relayer":
-		return w.RunTx(w.ctxAt(o), func(ctx sdk.Context) error {
-			var r goattypes.RelayerRequests
-			for _, a := range o.List("adds") {
-				f := fields(a)
-				r.Adds = append(r.Adds, &goattypes.AddVoterRequest{Voter: common.BytesToAddress(tr.UnHex(f[0])), Pubkey: common.BytesToHash(tr.UnHex(f[1]))})
-			}
-			for _, a := range o.List("removes") {
-				r.Removes = append(r.Removes, &goattypes.RemoveVoterRequest{Voter: common.BytesToAddress(tr.UnHex(a))})
-			}
-			return w.Rel.ProcessRelayerRequest(ctx, r)
-		})
+		return w.RunTx(w.ctxAt(o), func(ctx sdk.Context) error { return w.Rel.ProcessRelayerRequest(ctx, RelayerReqOf(o)) })
 	case "req.bridge":
 		return w.RunTx(w.ctxAt(o), func(ctx sdk.Context) error { return w.Btc.ProcessBridgeRequest(ctx, BridgeReqOf(o)) })
 	case "req.lock":
@@ -238,7 +162,7 @@ func (w *World) Exec(o *tr.Op) string {
 			ss = append(ss, fmt.Sprintf("%x|%d", u.PubKey.GetSecp256K1(), uint64(u.Power)))
 		}
 		sort.Strings(ss)
-		return "ok ups=" + tr.StrList(ss) + " ;; comet=" + w.applyComet(ups)
+		return "ok ups=" + tr.StrList(ss) + " ;; comet=" + w.ApplyComet(ups)
 
 	// ---------------------------------------------------------------------------------- dequeue
 	case "btc.dequeue":
@@ -279,9 +203,9 @@ func (w *World) Exec(o *tr.Op) string {
 	return "unknown-op " + o.Kind
 }
 
-// applyComet feeds the update list to a real CometBFT validator set (what the consensus engine would
+// ApplyComet feeds the update list to a real CometBFT validator set (what the consensus engine would
 // do with ResponseFinalizeBlock.ValidatorUpdates) and reports whether it is acceptable.
-func (w *World) applyComet(ups []abci.ValidatorUpdate) (res string) {
+func (w *World) ApplyComet(ups []abci.ValidatorUpdate) (res string) {
 	defer func() {
 		if e := recover(); e != nil {
 			res = "panic"
@@ -357,6 +281,76 @@ func (w *World) addrDeposit(o *tr.Op) string {
 	return fmt.Sprintf("%s+%s same=%s otherkey=%s otherevm=%s", tr.Hex(sc), tr.Hex(data), tr.B(same), tr.B(otherKey), tr.B(otherEvm))
 }
 
+// MsgOf builds the real sdk.Msg a `tx.*` operation describes.
+func MsgOf(o *tr.Op) sdk.Msg {
+	switch o.Kind {
+	case "tx.hashes":
+		return &bitcointypes.MsgNewBlockHashes{Proposer: o.Str("proposer"), Vote: voteOf(o), StartBlockNumber: o.U64("start"), BlockHash: o.BytesList("hashes")}
+	case "tx.pubkey":
+		return &bitcointypes.MsgNewPubkey{Proposer: o.Str("proposer"), Vote: voteOf(o), Pubkey: PubKeyOf(o.Str("kind"), o.Bytes("key"))}
+	case "tx.deposits":
+		m := &bitcointypes.MsgNewDeposits{Proposer: o.Str("proposer")}
+		for _, h := range o.List("headers") {
+			f := fields(h)
+			m.BlockHeaders = append(m.BlockHeaders, &bitcointypes.BlockHeader{Height: u64(f[0]), Raw: tr.UnHex(f[1])})
+		}
+		for _, d := range o.List("deps") {
+			f := fields(d)
+			m.Deposits = append(m.Deposits, &bitcointypes.Deposit{Version: uint32(u64(f[0])), BlockNumber: u64(f[1]), TxIndex: uint32(u64(f[2])),
+				NoWitnessTx: tr.UnHex(f[3]), OutputIndex: uint32(u64(f[4])), IntermediateProof: tr.UnHex(f[5]), EvmAddress: tr.UnHex(f[6]),
+				RelayerPubkey: PubKeyOf(f[7], tr.UnHex(f[8]))})
+		}
+		return m
+	case "tx.process":
+		return &bitcointypes.MsgProcessWithdrawal{Proposer: o.Str("proposer"), Vote: voteOf(o), Id: o.U64List("ids"), NoWitnessTx: o.Bytes("tx"), TxFee: o.U64("fee")}
+	case "tx.replace":
+		return &bitcointypes.MsgReplaceWithdrawal{Proposer: o.Str("proposer"), Vote: voteOf(o), Pid: o.U64("pid"), NewNoWitnessTx: o.Bytes("tx"), NewTxFee: o.U64("fee")}
+	case "tx.finalize":
+		return &bitcointypes.MsgFinalizeWithdrawal{Proposer: o.Str("proposer"), Pid: o.U64("pid"), Txid: o.Bytes("txid"), BlockNumber: o.U64("block"),
+			TxIndex: uint32(o.U64("txindex")), IntermediateProof: o.Bytes("proof"), BlockHeader: o.Bytes("header")}
+	case "tx.approve":
+		return &bitcointypes.MsgApproveCancellation{Proposer: o.Str("proposer"), Id: o.U64List("ids")}
+	case "tx.consolidate":
+		return &bitcointypes.MsgNewConsolidation{Proposer: o.Str("proposer"), Vote: voteOf(o), NoWitnessTx: o.Bytes("tx")}
+	case "tx.newvoter":
+		return &relayertypes.MsgNewVoterRequest{Proposer: o.Str("proposer"), VoterBlsKey: o.Bytes("blskey"), VoterBlsKeyProof: o.Bytes("blsproof"),
+			VoterTxKey: o.Bytes("txkey"), VoterTxKeyProof: o.Bytes("txproof")}
+	case "tx.accept":
+		return &relayertypes.MsgAcceptProposerRequest{Proposer: o.Str("proposer"), Epoch: o.U64("epoch")}
+	}
+	return nil
+}
+
+// Deliver routes a message to the real msg server of its module.
+func (w *World) Deliver(ctx sdk.Context, m sdk.Msg) error {
+	var err error
+	switch t := m.(type) {
+	case *bitcointypes.MsgNewBlockHashes:
+		_, err = w.BtcMsg.NewBlockHashes(ctx, t)
+	case *bitcointypes.MsgNewPubkey:
+		_, err = w.BtcMsg.NewPubkey(ctx, t)
+	case *bitcointypes.MsgNewDeposits:
+		_, err = w.BtcMsg.NewDeposits(ctx, t)
+	case *bitcointypes.MsgProcessWithdrawal:
+		_, err = w.BtcMsg.ProcessWithdrawal(ctx, t)
+	case *bitcointypes.MsgReplaceWithdrawal:
+		_, err = w.BtcMsg.ReplaceWithdrawal(ctx, t)
+	case *bitcointypes.MsgFinalizeWithdrawal:
+		_, err = w.BtcMsg.FinalizeWithdrawal(ctx, t)
+	case *bitcointypes.MsgApproveCancellation:
+		_, err = w.BtcMsg.ApproveCancellation(ctx, t)
+	case *bitcointypes.MsgNewConsolidation:
+		_, err = w.BtcMsg.NewConsolidation(ctx, t)
+	case *relayertypes.MsgNewVoterRequest:
+		_, err = w.RelMsg.NewVoter(ctx, t)
+	case *relayertypes.MsgAcceptProposerRequest:
+		_, err = w.RelMsg.AcceptProposer(ctx, t)
+	default:
+		err = fmt.Errorf("unknown message")
+	}
+	return err
+}
+
 type cometInfo struct{ mis []abci.Misbehavior }
 
 type evList struct{ mis []abci.Misbehavior }
@@ -381,6 +375,18 @@ func (c cometInfo) GetEvidence() comet.EvidenceList { return evList{c.mis} }
 func (c cometInfo) GetValidatorsHash() []byte        { return nil }
 func (c cometInfo) GetProposerAddress() []byte       { return nil }
 func (c cometInfo) GetLastCommit() comet.CommitInfo  { return nil }
+
+func RelayerReqOf(o *tr.Op) goattypes.RelayerRequests {
+	var r goattypes.RelayerRequests
+	for _, a := range o.List("adds") {
+		f := fields(a)
+		r.Adds = append(r.Adds, &goattypes.AddVoterRequest{Voter: common.BytesToAddress(tr.UnHex(f[0])), Pubkey: common.BytesToHash(tr.UnHex(f[1]))})
+	}
+	for _, a := range o.List("removes") {
+		r.Removes = append(r.Removes, &goattypes.RemoveVoterRequest{Voter: common.BytesToAddress(tr.UnHex(a))})
+	}
+	return r
+}
 
 func BridgeReqOf(o *tr.Op) goattypes.BridgeRequests {
 	var r goattypes.BridgeRequests
